@@ -34,6 +34,17 @@ def scenario(rng):
         script = {}
         for c in rng.sample(range(1, n + 1), min(n, rng.randint(1, 4))):
             script[str(c)] = [rng.choice(d["evlist"]) for _ in range(rng.randint(1, 2))]
+        # sometimes a callback also attaches a callback-less listener first, or takes a copy of the machine right after its
+        # send (slot 3 then holds a machine at rest: nothing of what is queued here belongs to it)
+        for c in list(script):
+            r = rng.random()
+            if r < 0.15:
+                script[c] = [{"listen": "empty"}] + script[c]
+            elif r < 0.3 and not scn.get("lender") and d["cbs"][int(c) - 1]["group"] not in ("cond", "validators"):
+                script[c] = script[c] + [{"copy": 3, "how": rng.choice(["deepcopy", "pickle"])}]
+                for _ in range(rng.randint(1, 3)):
+                    scn["steps"].append({"op": "call", "i": 3, "api": "send", "ev": rng.choice(d["evlist"]), "gv": gen.rand_gv(rng)})
+                break
         scn["script"] = script
     scn["budget"] = rng.randint(1, 6)
     scn["steps"][0]["opt"]["budget"] = scn["budget"]
